@@ -140,7 +140,7 @@ def run_case(case, tmp):
     envv = dict(os.environ)
     envv.update({"PYSNARK_BACKEND": backend, "QAPTOOLS_BIN": os.path.join(backends.SHIMS, "qapbin"),
                  "PYTHONPATH": backends.REPO + os.pathsep + os.path.join(backends.SHIMS, "fb") + core.COVPATH,
-                 "PYTHONDONTWRITEBYTECODE": "1", "PYTHONHASHSEED": "0"})
+                 "PYTHONDONTWRITEBYTECODE": "1", "PYTHONHASHSEED": core.hashseed_for(case)})
     try:
         r = subprocess.run([sys.executable, "prog.py"], cwd=tmp, env=envv, capture_output=True, text=True,
                            timeout=120, start_new_session=True)
